@@ -37,6 +37,12 @@ PROBED (what is run, over which domain):
      swapLast         the LAST recorded event of every kind is the clear (modify before swap)
      multiviewFirst   in the conversion `register(IMultiView)` precedes every `unregister(IView/ISecuredView)`
      registerViewCalls   adapter mutations of the first registration
+ * a real application whose slot (no context, name '') holds a MultiView with `accept=` members, asked with the SAME
+   Accept header string before and after a registration that adds a member without accept / adds one with accept /
+   replaces a member (same phash), GET and POST, headers {application/json, text/html+json;q, text/plain}: every answer
+   equals the answer of a freshly built application with the same registrations; and 20 vs 120 distinct unmatched
+   Accept headers leave the container census of the MultiView unchanged:
+     multiviewStateless   what a multiview answers is a function of (registrations in force, request)
 STILL AST (cannot be observed by a finite probe, kept as a cross-check of singleRead): the number of textual loads of
 `._view_lookup_cache` in `_find_views` and in the module-level helpers it calls (followed two levels deep) is 1 and
 there is no store — accepts renamed locals, helpers, guard clauses, any loop form.
@@ -390,6 +396,72 @@ def _probe_registrations(out, P):
     out['multiviewFirst'] = mvfirst
 
 
+def _probe_multiview(out, P):
+    from pyramid.config import Configurator
+    from pyramid.request import Request
+    from pyramid.response import Response
+    from pyramid.interfaces import IMultiView
+
+    def view(tag):
+        def v(request):
+            return Response(tag)
+        return v
+
+    def build(regs):
+        config = Configurator()
+        for r in regs:
+            kw = dict(r)
+            config.add_view(view(kw.pop('tag')), name='', **kw)
+            config.commit()
+        return config, config.make_wsgi_app()
+
+    def ask(app, method, accept):
+        req = Request.blank('/', headers=({'Accept': accept} if accept else {}))
+        req.method = method
+        resp = req.get_response(app)
+        return (resp.status_int, resp.text if resp.status_int == 200 else '')
+
+    base = [dict(tag='html', accept='text/html', request_method='GET'), dict(tag='json', accept='application/json', request_method='GET')]
+    later = [dict(tag='post', request_method='POST'), dict(tag='txt', accept='text/plain'),
+             dict(tag='json2', accept='application/json', request_method='GET'), dict(tag='any')]
+    headers = ['application/json', 'text/html, application/json;q=0.5', 'text/plain', None]
+    ok = True
+    for extra in later:
+        for h in headers:
+            for m1 in ('GET', 'POST'):
+                config, app = build(base)
+                ask(app, m1, h)                                    # history: the same header string was seen before
+                kw = dict(extra)
+                config.add_view(view(kw.pop('tag')), name='', **kw)
+                config.commit()
+                for m2 in ('GET', 'POST'):
+                    if ask(app, m2, h) != ask(build(base + [extra])[1], m2, h):
+                        ok = False
+    # unmatched headers must not accumulate in the multiview
+    config, app = build(base)
+    mvs = [a.factory for a in config.registry.registeredAdapters() if a.provided is IMultiView]
+    if len(mvs) != 1:
+        P.append('the multiview probe application has no single MultiView')
+        ok = False
+    else:
+        def size(o, seen, d=0):
+            if id(o) in seen or d > 6:
+                return 0
+            seen.add(id(o))
+            if isinstance(o, dict):
+                return len(o) + sum(size(v, seen, d + 1) for v in o.values())
+            if isinstance(o, (list, tuple, set, frozenset)):
+                return len(o) + sum(size(v, seen, d + 1) for v in o)
+            return 0
+        for n in range(120):
+            ask(app, 'GET', 'application/x-odd%d' % n)
+            if n == 19:
+                c20 = size(vars(mvs[0]), set())
+        if size(vars(mvs[0]), set()) != c20:
+            ok = False
+    out['multiviewStateless'] = ok
+
+
 def _ast_cache_loads(src_root, P):
     """textual loads / stores of `._view_lookup_cache` in `_find_views` and the module-level helpers it calls"""
     tree = ast.parse(open(os.path.join(src_root, 'pyramid', 'view.py')).read())
@@ -423,7 +495,7 @@ def facts(src_root):
         sys.path.insert(0, src_root)
     defaults = dict(clears=None, swapLast=None, freshDict=None, singleRead=None, cacheEmpty=None, writeUnderLock=None,
                     probeBeforeScan=None, scanInLoop=None, returnsLocal=None, keyCoversScan=None, multiviewFirst=None,
-                    multiViewScannedLast=None, cachedValuesImmutable=None, fallbackFreshDict=None, lockIsLock=None, registerViewCalls=0,
+                    multiViewScannedLast=None, cachedValuesImmutable=None, multiviewStateless=None, fallbackFreshDict=None, lockIsLock=None, registerViewCalls=0,
                     keyFields=['unknown'], scanInputs=['unknown'])
     out.update(defaults)
     try:
@@ -431,7 +503,7 @@ def facts(src_root):
         if not os.path.realpath(pyramid.__file__).startswith(src_root + os.sep):
             P.append('pyramid is imported from %s, not from the tree under test' % os.path.dirname(pyramid.__file__))
         else:
-            for probe in (_probe_find_views, _probe_registry, _probe_registrations):
+            for probe in (_probe_find_views, _probe_registry, _probe_registrations, _probe_multiview):
                 try:
                     probe(out, P)
                 except Exception as e:                      # fail closed
@@ -447,13 +519,13 @@ def facts(src_root):
         P.append('ast cross-check failed: %s' % e)
         out['astSingleLoad'] = None
     for k in ('clears', 'swapLast', 'freshDict', 'singleRead', 'cacheEmpty', 'writeUnderLock', 'probeBeforeScan', 'scanInLoop',
-              'returnsLocal', 'keyCoversScan', 'multiviewFirst', 'multiViewScannedLast', 'cachedValuesImmutable', 'fallbackFreshDict', 'lockIsLock'):
+              'returnsLocal', 'keyCoversScan', 'multiviewFirst', 'multiViewScannedLast', 'cachedValuesImmutable', 'multiviewStateless', 'fallbackFreshDict', 'lockIsLock'):
         if out[k] is None:
             P.append('%s could not be determined' % k)
     out['recognised'] = not P
     summary.clear()
     summary.update({k: out[k] for k in ('recognised', 'clears', 'swapLast', 'freshDict', 'singleRead', 'cacheEmpty', 'writeUnderLock',
-                                        'keyFields', 'scanInputs', 'keyCoversScan', 'multiviewFirst', 'multiViewScannedLast', 'cachedValuesImmutable', 'problems')})
+                                        'keyFields', 'scanInputs', 'keyCoversScan', 'multiviewFirst', 'multiViewScannedLast', 'cachedValuesImmutable', 'multiviewStateless', 'problems')})
     return out
 
 
@@ -498,6 +570,8 @@ def generate(src_root):
          'def returnsLocal : Bool := ' + _b(f['returnsLocal'], False),
          '/-- a list returned / cached by `_find_views` is never changed by a later lookup of another key -/',
          'def cachedValuesImmutable : Bool := ' + _b(f['cachedValuesImmutable'], False),
+         '/-- a MultiView answers as a function of (registrations in force, request): same Accept header before/after a member is added/replaced; no growth under odd headers -/',
+         'def multiviewStateless : Bool := ' + _b(f['multiviewStateless'], False),
          '/-- the inputs of `_find_views` the cache key distinguishes -/',
          'def keyFields : List String := [' + ', '.join(_lstr(x) for x in f['keyFields']) + ']',
          '/-- the inputs of `_find_views` the adapter lookups depend on -/',
